@@ -95,3 +95,17 @@ pub fn vx_iter_map_collect<A, T, F: Fn(&A) -> T>(v: &Vec<A>, f: F) -> (r: Vec<T>
     }
     r
 }
+
+// `v[a..b].sort_unstable()` on a Vec<u64>: sorted permutation of that range, rest untouched (assumed contract of std's sort)
+pub open spec fn vx_sorted_u64(s: Seq<u64>) -> bool { forall|i: int, j: int| 0 <= i <= j < s.len() ==> s[i] <= s[j] }
+#[verifier::external_body]
+pub fn vx_sort_range_u64(v: &mut Vec<u64>, a: usize, b: usize)
+    requires a <= b <= old(v)@.len(),
+    ensures final(v)@.len() == old(v)@.len(),
+        final(v)@.subrange(0, a as int) == old(v)@.subrange(0, a as int),
+        final(v)@.subrange(b as int, old(v)@.len() as int) == old(v)@.subrange(b as int, old(v)@.len() as int),
+        vx_sorted_u64(final(v)@.subrange(a as int, b as int)),
+        final(v)@.subrange(a as int, b as int).to_multiset() == old(v)@.subrange(a as int, b as int).to_multiset(),
+{ v[a..b].sort_unstable() }
+// usize::try_from(u64).unwrap() on a 64-bit target
+pub fn vx_u64_to_usize(x: u64) -> (r: usize) ensures r == x { x as usize }
